@@ -203,7 +203,8 @@ def make_generator(name, f):
 
 def contracts(tier):
     if tier == "quick":
-        det = [("polling", 125e6), ("polling", 5e6), ("ping", 125e6), ("reset", 125e6), ("reset", 250.0)]   # 125 MHz: as built
+        det = [("polling", 125e6), ("polling", 5e6), ("ping", 125e6), ("reset", 125e6), ("reset", 250.0),    # 125 MHz: as built
+               ("polling", 1.14e6), ("reset", 2133.0)]   # clocks at which the longest window edge is exactly 2^k cycles (counter width boundary)
         gen = [("polling", 125e6), ("polling", 1e6)]
     else:
         det = [(n, f) for n in ("polling", "ping", "reset") for f in (125e6, 250e6, 62.5e6, 10e6, 5e6, 2.5e6, 1e6)] + \
